@@ -621,6 +621,17 @@ impl<'a, 'src> ExpressionParser<'a, 'src>
 		let mut inner_walker = self.walker
 			.advance_until_closing_brace();
 
+		if inner_walker.block_nesting_depth >= expr::PARSE_RECURSION_DEPTH_MAX
+		{
+			self.report.error_span(
+				"block nesting depth limit reached",
+				tk_asm.span);
+
+			return Err(());
+		}
+
+		inner_walker.block_nesting_depth += 1;
+
 		let ast = asm::parser::parse_nested_toplevel(
 			self.report,
 			&mut inner_walker)?;
